@@ -109,7 +109,11 @@ func outputTupleDir(v rel.Value, dir string, fs afero.Fs, dryRun bool) error {
 		if !is {
 			return fmt.Errorf("dir output dict key must be a non-empty string")
 		}
-		subpath := path.Join(dir, name.String())
+		entry, ok := entryPath(name.String())
+		if !ok {
+			return fmt.Errorf("dir output dict key must name an entry inside the directory: %q", name.String())
+		}
+		subpath := path.Join(dir, entry)
 		switch content := v.(type) {
 		case rel.Tuple:
 			if err := configureOutput(content, subpath, fs, dryRun); err != nil {
@@ -135,6 +139,16 @@ func outputTupleDir(v rel.Value, dir string, fs afero.Fs, dryRun bool) error {
 		}
 	}
 	return nil
+}
+
+// entryPath cleans a dict key into a path relative to the directory being written.
+// Keys that denote the directory itself or lead out of it ("." or "..", "../x", "a/../..") are refused.
+func entryPath(name string) (string, bool) {
+	entry := path.Join(".", name)
+	if entry == "." || entry == ".." || strings.HasPrefix(entry, "../") {
+		return "", false
+	}
+	return entry, true
 }
 
 func outputFile(content rel.Value, path string, fs afero.Fs, dryRun bool) error {
